@@ -1290,6 +1290,13 @@ func (broker *Broker) startValidate(wg *sync.WaitGroup) {
 func (broker *Broker) finish(file sts.Polled) {
 	switch {
 	case file.Waiting() || file.Received():
+		if cached := broker.Conf.Cache.Get(file.GetName()); cached != nil &&
+			cached.GetHash() != "" && cached.GetHash() != file.GetHash() {
+			// The file changed and was queued again after this version was
+			// sent; only the confirmation of that version may release it
+			log.Debug("Ignoring confirmation of previous version:", file.GetName())
+			return
+		}
 		log.Debug("Validated:", file.GetName())
 		// Make marking done and file removal a single transaction so that we
 		// keep the cache in sync with the file system.  Without it, it's
